@@ -3341,41 +3341,78 @@ class StateEngine(object):
                 languages. 
                 https://stackoverflow.com/questions/34384523/how-can-loop-through-a-list-from-a-certain-index
                 """
+                """
+                Work out the effective input of every iteration of this block
+                before any of them is launched. If the ItemSelector cannot be
+                evaluated for one of the items the Map state fails as a whole
+                (subject to its own Retry/Catch), so no iteration must be left
+                running and the event must look the way it did when the Map
+                state was entered: without the Map Item and without the entry
+                that was added to the Branch stack for the iterations.
+                """
+                effective_inputs = []
+                try:
+                    for index, item in enumerate(items_path[start:end], start=start):
+                        """
+                        Ensure the context evaluated by parameter evaluation is that
+                        of the parent Map state not the new Iterator StartAt state.
+                        """
+                        context_state["Name"] = map_state_name
+                        context_state["EnteredTime"] = map_state_entered
+
+                        if item_selector is not None:  # N.B. {} is a valid template
+                            # Store the index and value in the context as described above.
+                            context["Map"] = {
+                                "Item": {
+                                    "Index": index,
+                                    "Value": item,
+                                },
+                            }
+
+                            """
+                            https://states-language.net/spec.html#using-paths
+
+                            If the “Parameters” field is provided, its value, after
+                            extraction and embedding, becomes the effective input.
+                            """
+                            effective_inputs.append(evaluate_payload_template(
+                                input, context, item_selector
+                            ))
+
+                            del context["Map"]  # Delete after parameters have been processed
+                        else:
+                            """
+                            If no parameters are supplied the effective input to the
+                            iteration is the current item i.e $$.Map.Item.Value
+                            """
+                            effective_inputs.append(item)
+                except Exception:
+                    context.pop("Map", None)
+                    if length and "Branch" in context_state:
+                        marker = context_state["Branch"].pop()
+                        if len(context_state["Branch"]) == 0:
+                            del context_state["Branch"]
+                        """
+                        If earlier MaxConcurrency blocks have completed their
+                        results (and the events held for them) are no longer
+                        needed: mark them so that they get tidied up.
+                        """
+                        if execution_arn in self.branch_metadata:
+                            results = self.branch_metadata[execution_arn].results
+                            if marker.get("ID") in results:
+                                results[marker["ID"]]["terminated"] = "0:" + str(length)
+                                # (the iterations from this block on are never launched)
+                                for i in range(start, length):
+                                    results[marker["ID"]]["results"][i] = "__TERMINATED__"
+                                self.check_pending_results(execution_arn)
+                    if retry_count != None:
+                        context_state["RetryCount"] = retry_count
+                    if retry_timeout != None:
+                        context_state["RetryTimeout"] = retry_timeout
+                    raise
+
                 for index, item in enumerate(items_path[start:end], start=start):
-                    """
-                    Ensure the context evaluated by parameter evaluation is that
-                    of the parent Map state not the new Iterator StartAt state.
-                    """
-                    context_state["Name"] = map_state_name
-                    context_state["EnteredTime"] = map_state_entered
-
-                    if item_selector is not None:  # N.B. {} is a valid template
-                        # Store the index and value in the context as described above.
-                        context["Map"] = {
-                            "Item": {
-                                "Index": index,
-                                "Value": item,
-                            },
-                        }
-
-                        """
-                        https://states-language.net/spec.html#using-paths
-
-                        If the “Parameters” field is provided, its value, after
-                        extraction and embedding, becomes the effective input.
-                        """
-                        parameters = evaluate_payload_template(
-                            input, context, item_selector
-                        )
-
-                        del context["Map"]  # Delete after parameters have been processed
-                    else:
-                        """
-                        If no parameters are supplied the effective input to the
-                        iteration is the current item i.e $$.Map.Item.Value
-                        """
-                        parameters = item
-
+                    parameters = effective_inputs[index - start]
 
                     event["data"] = parameters
                     branch_info = {
